@@ -1713,7 +1713,8 @@ func parseFieldStrValue(s string) (string, error) {
 		ret.WriteString(s)
 		return ret.String(), nil
 	}
-	return "", nil
+	// a quote somewhere inside a value that does not start with one (v=abc"def"): not a string, not a number
+	return "", fmt.Errorf("invalid field value %s", s)
 }
 
 func nextUnescapedChar(s string, ch byte, noEscapeChars, enableTagArray, tagParse bool) int {
